@@ -20,7 +20,21 @@ def ev(kind, **kw):
 
 
 def disk_versions():
-    return int(open("out/config_version.txt").read()), int(open("out/job_status_version.txt").read())
+    """Newest version visible on disk for each of the two state files: the quick-check version file and the version
+    recorded inside the state file itself (they differ only after a writer died between its two writes)."""
+    out = []
+    for vf, sf in (("out/config_version.txt", "out/cluster_config.json"), ("out/job_status_version.txt", "out/job_status.json")):
+        v = -1
+        try:
+            v = int(open(vf).read())
+        except (OSError, ValueError):
+            pass
+        try:
+            v = max(v, int(json.load(open(sf))["version"]))
+        except (OSError, ValueError, KeyError):
+            pass
+        out.append(v)
+    return out[0], out[1]
 
 
 for op in prog:
